@@ -15,8 +15,8 @@ Ties (all evaluated inside Coq by vm_compute against coq/theories/CommSumm.v):
               given to the model, CommSumm.summarize_val must equal the snapshot behind the apply stage.
 Oracle (independent brute force, Python): paired runs without / with --comm_summarize_seq matched by args.uid.
   Every (input file, sequence number) group of SenRdma slices exported by the run without the option is replaced by
-  exactly one slice [min start, max end) with the union of the parts' peers; every other slice is exported
-  unchanged; (direct drive additionally: the merged slice sits at the position of the last part).
+  exactly one slice [min start, max end) with the union of the parts' peers (what a part names in args.Peer and
+  what it lists in args.Peers); every other slice is exported unchanged; (direct drive additionally: the merged slice sits at the position of the last part).
 """
 import contextlib
 import copy
@@ -46,13 +46,14 @@ MANIFEST = {
             "ranks and interleavings (no bound): the output of the two stages equals, event by event, 'unchanged if "
             "not part of a sequence, removed if a later part of the same (job, number) exists, otherwise the slice "
             "built from ALL parts of the sequence' (C20_summarize_spec); that slice starts at the minimum start, ends "
-            "at the maximum end of the parts and lists exactly the union of their peers, strictly ascending "
-            "(C20_hull); with distinct uids exactly one exported slice stems from each sequence and the slices that "
+            "at the maximum end of the parts and lists exactly the union of what ALL parts of the sequence name in "
+            "args.Peer and list in args.Peers (any input Peers: list, comma separated string, single value, blank items "
+            "skipped), strictly ascending (C20_hull); with distinct uids exactly one exported slice stems from each sequence and the slices that "
             "are not parts are exported unchanged and in order (C20_one_slice_per_sequence, C20_others_unchanged); two "
             "parts share a key iff they come from the same job and carry the same digit string "
             "(C20_key_is_file_and_number); the operational pipeline collection;barrier;apply of Pipeline.v computes "
-            "exactly this function (C20_two_phase); the only exception is int() of a malformed Peer "
-            "(C20_error_branch). The model is tied to the code by correspondence runs (name classifier, name overlap, "
+            "exactly this function (C20_two_phase); the only exception is int() of a malformed Peer or of a malformed "
+            "item of Peers of a part (C20_error_branch). The model is tied to the code by correspondence runs (name classifier, name overlap, "
             "the three real stages on the real EventProcessor, Acelyzer end to end with -I snapshots) and an "
             "independent paired-run oracle (without/with --comm_summarize_seq, matched by args.uid).",
     "note": "Trusted: Coq kernel + vm_compute; hand-written model CommSumm.v tied by differential testing only; "
@@ -62,6 +63,12 @@ MANIFEST = {
             "of the property. F8 (key int(str(job)+digits): collisions across jobs, falsy 0) was found by this "
             "check and is fixed in /repo (ce60951); seeded/revert_fix_C20 re-introduces it and is caught by the "
             "corpus cases d02/d03 (direct) and e01/e02 (CLI object, file names chosen to hit job ids 441/4411/0). "
+            "Until /repo cff7329 add_to_sequence collected only args.Peer, so the peers a part lists in args.Peers (the "
+            "BcList part of a multicast has nothing else) were missing on the merged slice; found by this check's audit, "
+            "fixed in /repo; the model (e_peers = the items of args.Peers, peers_add), C20_hull and the oracles now cover "
+            "Peers of the parts; seeded/revert_fix_C20d re-introduces the defect and is caught by corpus d10/d13/d15/e04 "
+            "and the generated streams (22% of the slices carry a Peers). The e2e oracle takes the parts' peers from the "
+            "INPUT files, because with --flow the run without the option drops a part's Peer when it has a Peers as well. "
             "End to end a slice belongs to a sequence by the name the run WITHOUT the option exports it with "
             "(earlier stages normalise RDMA -> Rdma). Print Assumptions: closed under the global context.",
     "technique": "Coq proof (induction over the stream with a per-key invariant linking the counter to the number of "
@@ -71,8 +78,11 @@ MANIFEST = {
 }
 TRUSTED = [
     "modelled, not verified: Python re.search for the one fixed pattern [_-](\\d+) and `in` on ASCII names (\\d on "
-    "non-ASCII digits is outside the generated domain); int() of args.Peer is modelled as 'accepts -> integer / "
-    "rejects -> ValueError' with the harness deciding which (Python int, str of int with blanks, or a non-number)",
+    "non-ASCII digits is outside the generated domain); int() of args.Peer and of each item of args.Peers is modelled as "
+    "'accepts -> integer / rejects -> ValueError' (an item of Peers additionally: 'blank -> skipped') with the harness "
+    "deciding which (Python int, str of int with blanks, blank, or a non-number string); splitting a Peers string at ',' "
+    "and taking the elements of a list/tuple/set or a single value as the items is done by the harness encoding "
+    "(peers_entries); values on which int() raises TypeError (None, dict) are outside the generated domain",
     "Python set iteration order is not modelled: Peers is compared as a set of ints (sorted on both sides)",
     "e2e tie: the stream given to the model is the -I snapshot behind communication_event_collection of the same run "
     "(what the earlier stages do to the input is C01/C04/C05/C08's business); -I itself is trusted to be transparent "
@@ -83,8 +93,8 @@ ASSUMPTIONS = [
     "default or 'everything' profile: the barrier between collection and apply is enabled",
     "uids (args.uid) of the input slices are pairwise distinct (C20_one_slice_per_sequence / C20_others_unchanged "
     "identify exported slices by uid, as the observation does)",
-    "no part of a sequence carries an args.Peer that int() rejects (otherwise the run aborts with ValueError, "
-    "C20_error_branch)",
+    "no part of a sequence carries an args.Peer, or an item in its args.Peers, that int() rejects (otherwise the run "
+    "aborts with ValueError, C20_error_branch); args.Peers of the parts is otherwise unrestricted and part of the union",
     "input paths of one run are pairwise distinct strings (the same path listed twice is one job for the tool); paths "
     "whose crc32 % 10000 collide are included: the tool gives the later one the next free id (fix 'unique job ids')",
     "end to end, a slice is a part of sequence (input file, number) by the name the run without the option exports it "
@@ -110,7 +120,9 @@ def _silence_logger():
 
 # ================================================================== case representation
 # event: {"uid", "ph" ("X"|"C"), "name", "job", "pid", "tid", "ts", "dur", "peer": ["none"]|["int", z, how]|["bad", text],
-#         "peers": None | [ints]}            how in {"int", "str", "pad"}
+#         "peers": None | [entries] | "comma separated string" | int,  "peers_form": absent | "list" | "tuple" | "set"}
+#         how in {"int", "str", "pad"}; an entry is an int or a string (number, number with blanks, blank, non-number);
+#         peers_form says as which Python container a list reaches the stages in the direct drive (JSON files: a list)
 def peer_value(p):
     if p[0] == "none":
         return None
@@ -128,7 +140,11 @@ def event_dict(e, jobhash=True):
     if pv is not None:
         args["Peer"] = pv
     if e.get("peers") is not None:
-        args["Peers"] = list(e["peers"])
+        v = e["peers"]
+        if isinstance(v, list):
+            form = e.get("peers_form") if jobhash else None
+            v = tuple(v) if form == "tuple" else set(v) if form == "set" else list(v)
+        args["Peers"] = v
     d = {"ph": e["ph"], "pid": e["pid"], "tid": e["tid"], "name": e["name"], "ts": float(e["ts"]), "args": args}
     if e["ph"] == "X":
         d["dur"] = float(e["dur"])
@@ -136,20 +152,57 @@ def event_dict(e, jobhash=True):
 
 
 def _peer_list(v):
-    """peers of an exported slice: absent, one int / numeric string, a comma separated string or a list"""
+    """ORACLE side: the peers a slice names in one args value: absent, one int / numeric string, a comma separated
+    string or a list; an empty item names nobody.  ValueError/TypeError if an item is not a number (malformed input)."""
     if v is None:
         return []
-    if isinstance(v, (list, tuple)):
-        return [int(x) for x in v]
     if isinstance(v, str):
-        return [int(x) for x in v.split(",")]
-    return [int(v)]
+        items = v.split(",")
+    elif isinstance(v, (list, tuple, set, frozenset)):
+        items = list(v)
+    else:
+        items = [v]
+    return [int(x) for x in items if not (isinstance(x, str) and x.strip() == "")]
+
+
+def _malformed(e):
+    """ORACLE side: a case event whose Peer / Peers do not name integers"""
+    try:
+        _peer_list(peer_value(e["peer"]))
+        _peer_list(e.get("peers"))
+        return False
+    except (ValueError, TypeError):
+        return True
+
+
+def peers_entries(v):
+    """TIE side (encoding of the model's input and of the observation): the entries of an args.Peers value in the sense
+    of CommSumm.e_peers: a string is split at ',', a list/tuple/set gives its elements, anything else is ONE entry"""
+    if isinstance(v, str):
+        return v.split(",")
+    if isinstance(v, (list, tuple, set, frozenset)):
+        return list(v)
+    return [v]
+
+
+def entry_class(x):
+    """one entry: None = blank, int = int() accepts it, "bad" = int() rejects it (the harness decides, the model acts)"""
+    if str(x).strip() == "":
+        return None
+    try:
+        return int(x)
+    except (ValueError, TypeError):
+        return "bad"
 
 
 def canon_peers(v):
+    """= CommSumm.peers_val: None | ascending set of the listed ints | the string malformed"""
     if v is None:
         return None
-    return sorted(set(_peer_list(v)))
+    cls = [entry_class(x) for x in peers_entries(v)]
+    if "bad" in cls:
+        return "malformed"
+    return sorted({c for c in cls if c is not None})
 
 
 def project(d):
@@ -167,8 +220,13 @@ def coq_peer(p):
     return "PBad"
 
 
+def coq_entry(x):
+    c = entry_class(x)
+    return "PNone" if c is None else "PBad" if c == "bad" else f"(PInt {enc.Z(c)})"
+
+
 def coq_ev(e):
-    peers = "None" if e.get("peers") is None else f"(Some {enc.L([enc.Z(z) for z in canon_peers(e['peers'])])})"
+    peers = "None" if e.get("peers") is None else f"(Some {enc.L([coq_entry(x) for x in peers_entries(e['peers'])])})"
     dur = e["dur"] if e["ph"] == "X" else 0
     return (f"(mkev {enc.B(e['ph'] == 'X')} {enc.S(e['name'])} {enc.Z(e['job'])} {enc.Q(float(e['ts']))} "
             f"{enc.Q(float(dur))} {coq_peer(e['peer'])} {enc.Z(e['uid'])} {peers})")
@@ -190,7 +248,7 @@ def snapshot_event(d):
         peer = ["none"]
     return {"uid": a.get("uid", -1), "ph": d["ph"] if d["ph"] == "X" else "C", "name": d["name"],
             "job": a.get("jobhash", -1), "pid": d.get("pid", 0), "tid": d.get("tid", 0), "ts": d["ts"],
-            "dur": d.get("dur", 0.0), "peer": peer, "peers": canon_peers(a.get("Peers"))}
+            "dur": d.get("dur", 0.0), "peer": peer, "peers": a.get("Peers")}
 
 
 # ================================================================== the property's own reading (oracle side)
@@ -264,8 +322,8 @@ def direct_observed(out):
 
 def oracle_direct(events, out):
     """the property on one direct-drive case; returns None or a failure description"""
-    if any(e["peer"][0] == "bad" and seq_group(e["name"], e["ph"]) is not None for e in events):
-        return None                               # malformed input: outside the property (tie only)
+    if any((e["peer"][0] == "bad" or _malformed(e)) and seq_group(e["name"], e["ph"]) is not None for e in events):
+        return None                               # a part with a malformed Peer / Peers: outside the property (tie only)
     if isinstance(out, enc.Err):
         return {"kind": "stages_raised", "error": out.tag}
     groups, order = {}, []
@@ -296,7 +354,9 @@ def oracle_direct(events, out):
         ps = groups[k]
         start = min(float(p["ts"]) for p in ps)
         end = max(float(p["ts"]) + float(p["dur"]) for p in ps)
-        peers = sorted({int(peer_value(p["peer"])) for p in ps if p["peer"][0] == "int"})
+        # "the union of their peers": what a part names in args.Peer AND what it lists in args.Peers (the BcList part of a
+        # multicast carries only "Peers"; until /repo fix cff7329 those were ignored)
+        peers = sorted({q for p in ps for q in _peer_list(peer_value(p["peer"])) + _peer_list(p.get("peers"))})
         if d["ts"] != start:
             return dict(kind="hull_start_wrong", group=list(k), expected=start, observed=d["ts"], **facts)
         if d["ts"] + d["dur"] != end:
@@ -450,6 +510,7 @@ def oracle_e2e(sc, res):
                 g = seq_group(xa["name"], xa["ph"])
                 if g is not None:
                     groups.setdefault((k, g), []).append(e["uid"])
+    in_by = {e["uid"]: e for f in sc["files"] for e in f["events"]}
     facts = old_key_facts({(res["jobs"][k], g) for (k, g) in groups})
     facts["path_hashes_collide_within_run"] = len(set(res["path_hashes"])) < len(res["path_hashes"])
     part_uids = {u for v in groups.values() for u in v}
@@ -472,8 +533,12 @@ def oracle_e2e(sc, res):
         m = ms[0]
         start = min(p["ts"] for p in ps)
         end = max(p["ts"] + p["dur"] for p in ps)
-        # with --flow a later stage renames each part's "Peer" to "Peers" in the reference run as well
-        peers = sorted({q for p in ps for q in _peer_list(p["args"].get("Peer", p["args"].get("Peers")))})
+        # "their peers" = what the parts (those the reference run exports) name in args.Peer and list in args.Peers IN THE
+        # INPUT: with --flow a later stage of the reference run renames Peer to Peers and drops a part's Peer when that part
+        # has a Peers list as well, so the exported reference slices are not a faithful record of the parts' peers
+        exported = {p["args"]["uid"] for p in ps}
+        peers = sorted({q for u in uids if u in exported
+                        for q in _peer_list(peer_value(in_by[u]["peer"])) + _peer_list(in_by[u].get("peers"))})
         if m["ts"] != start:
             return dict(kind="hull_start_wrong", group=[k, g], expected=start, observed=m["ts"], **facts)
         if m["ts"] + m["dur"] != end:
@@ -524,6 +589,33 @@ def gen_peer(r, bad=0.0):
     return ["int", r.choice([0, 1, 2, 3, 4, 7, 11, 63, -1]), r.choice(["int", "str", "str", "pad"])]
 
 
+_BAD_PEERS = ["1,x", ["a"], "1;2", [3, "2.5"], "x", [1, "0x2"], "1,2,y", "4 5", ["", "-"], ",z"]
+
+
+def gen_peers(r, p_some, bad=0.0, containers=True, blanks=True):
+    """args.Peers of a slice: (value, form).  Absent, a list of ints (sorted or not, possibly empty, possibly as a
+    tuple/set), a list with numeric strings / blanks, a comma separated string (incl. "", blanks, empty items), a single
+    int; with probability `bad` something with an item int() rejects.  blanks=False: no empty items (the --flow stages of
+    the run WITHOUT the option do int() on every item of a Peers string themselves)."""
+    if r.random() >= p_some:
+        return None, None
+    ints = r.sample(range(0, 13), r.randint(0, 4))
+    if r.random() < bad:
+        return copy.deepcopy(r.choice(_BAD_PEERS)), None
+    x = r.random()
+    if x < 0.45:
+        return sorted(ints), None
+    if x < 0.58:
+        return ints, (r.choice(["tuple", "set", "list"]) if containers else None)
+    if x < 0.70:
+        return [r.choice([i, str(i), f" {i} ", i]) for i in ints] + (r.choice([[], [], [""], [" "]]) if blanks else []), None
+    if x < 0.92:
+        if not blanks:
+            return r.choice([",", ",", ", ", " ,"]).join(map(str, ints or [r.randint(0, 12)])), None
+        return r.choice([",", ",", ", ", " ,"]).join(map(str, ints)) + r.choice(["", "", "", ",", " "]), None
+    return r.choice([0, 5, 11, 13, -2]), None
+
+
 _JOBS = [0, 1, 4, 12, 44, 123, 441, 4411, 9999, 5]
 
 
@@ -541,9 +633,10 @@ def gen_direct(r, uid0=1, malformed=False):
             name = name.strip()        # CounterEvents.__init__ strips the name at export time (not a comm stage effect)
         e = {"uid": uid0 + i, "ph": ph, "name": name, "job": job, "pid": jobs.index(job) % 2, "tid": r.randint(0, 3),
              "ts": r.randint(0, 4000) / 8.0, "dur": r.randint(1, 400) / 8.0,
-             "peer": gen_peer(r, 0.12 if malformed else 0.0), "peers": None}
-        if r.random() < 0.06:
-            e["peers"] = sorted(r.sample(range(8), r.randint(0, 3)))
+             "peer": gen_peer(r, 0.08 if malformed else 0.0)}
+        e["peers"], form = gen_peers(r, 0.22, 0.3 if malformed else 0.0)
+        if form is not None:
+            e["peers_form"] = form
         evs.append(e)
     return {"kind": "direct", "events": evs}
 
@@ -553,6 +646,7 @@ def gen_e2e(r):
     (plus optional enclosing host slices) so that overlap resolution has nothing to do"""
     ranks = r.randint(1, 4)
     files, uid = [], 1
+    opts = r.choice([[], [], ["--flow"], ["--keep_names"], ["-c", "@LOG"]])
     shared_digs = r.sample(_DIG, 3)
     for pid in range(ranks):
         njobs = r.choice([1, 1, 2, 3])
@@ -584,7 +678,8 @@ def gen_e2e(r):
                 name = gen_name(r, safe=True) if x > 0.85 else r.choice(["host op", "RecvRdma_3 x", "SenRdma nonum", "memcpy-4"])
                 peer = gen_peer(r) if r.random() < 0.3 else ["none"]
             per_job[j].append({"uid": uid, "ph": "X", "name": name, "job": -1, "pid": pid,
-                               "tid": r.choice([1, 1, 2, 3]), "ts": t0, "dur": dur, "peer": peer, "peers": None})
+                               "tid": r.choice([1, 1, 2, 3]), "ts": t0, "dur": dur, "peer": peer,
+                               "peers": gen_peers(r, 0.22, containers=False, blanks="--flow" not in opts)[0]})
             uid += 1
         if nslots >= 3 and seqs and r.random() < 0.35:
             # one more part of some sequence that ENCLOSES a range of slots (nesting is legal): the part that comes
@@ -611,7 +706,7 @@ def gen_e2e(r):
     # the property quantifies over runs "with --comm_summarize_seq": other options may be on as well
     # ... and where the input files live is free: one directory, one directory each with equal base names, or two
     # paths that happen to share the 4-digit job id
-    return {"kind": "e2e", "files": files, "opts": r.choice([[], [], ["--flow"], ["--keep_names"], ["-c", "@LOG"]]),
+    return {"kind": "e2e", "files": files, "opts": opts,
             "layout": r.choice(["flat"] * 6 + ["dirs", "dirs", "collide"])}
 
 
@@ -916,7 +1011,8 @@ def run(ctx):
     return {
         "evaluations": n_eval, "distinct_nontrivial": nontriv,
         "rule": "corpus first (%d cases), then direct-drive streams of 1..24 events over 1..3 jobs with colliding "
-                "digit strings (%d, of which a malformed-Peer stream of %d) and end-to-end scenarios with 1..4 ranks, "
+                "digit strings, 22%% of the slices with an args.Peers (list/tuple/set/comma separated string/single value) "
+                "(%d, of which a malformed-Peer/Peers stream of %d) and end-to-end scenarios with 1..4 ranks, "
                 "1..3 jobs per rank, interleaved sequences of 1..6 parts (%d; each = 3 Acelyzer runs). non-trivial = "
                 "distinct case in which some (job, sequence number) has >= 2 parts (same rule evaluated inside Coq "
                 "over the direct cases incl. duplicates: %s)" % (n_corpus, len(directs), ctx.pick(150, 2000),
